@@ -8,5 +8,9 @@ CHECKS = {
         technique="TLA+ spec Rbt.tla model-checked by TLC; every TLC transition replayed into a_rbt_insert/remove/search; TLC trace validation (RbtTrace.tla)",
         text="Same construction as C01 for the red-black tree (N=10 quick, 12 thorough): root black, no red-red edge, equal black height, parent links, contents, duplicate and lookup rules checked by TLC on the design and on every structure produced by the real code; all 20 insert/remove repair cases (both mirrors) must be exercised or the check reports itself broken.",
         note="Same assumptions as C01."),
+    "C03": dict(module="checks.iters", category="model_checking", design="4/C03",
+        technique="TLA+ spec TreeIter.tla (reference orders + transcribed step functions) checked by TLC as an invariant on every tree reachable in Avl/Rbt; real iterators and tear-down run on every reachable shape and validated by TLC (TreeIterTrace.tla)",
+        text="IterInv (six traversal orders equal their recursive definitions, next/prev mutually inverse, tear-down hands out each node once with children first, reads no handed-out node, leaves a linked remainder after any interruption and ends empty) is model-checked by TLC on every tree reachable over N keys in both containers; the real foreach macros, single-step functions from every node and a_*_tear (from the root, from every start node, interrupted and restarted at every k, handed-out nodes poisoned under ASan) are executed on every such shape and TLC validates the logged sequences against the reference orders.",
+        note="Shapes beyond N keys are not enumerated; read-after-hand-out is observed through ASan poisoning in the harness."),
 }
 NOT_YET = {}
